@@ -1,20 +1,20 @@
 """
 C12 - time to beat conversion inverts beat to time on the tick grid.
 """
-from props.engine_common import BeatsUntil, Lookup, EngineVsStatement, engine_witness
+from props.engine_common import BeatsUntil, Lookup, EngineVsStatement, engine_witness, RetimeEvents
 
 LEVEL = "other"
 TRUSTED = ["T-STD: bisect returns a local boundary index on any list and the partition point on a sorted one",
            "A-FLOAT: floats are reals; Beat(float) rounds half-to-even to the tick grid",
-           "SM_inv: the engine's state list has non-decreasing times and in-domain states (established by _retime_events; C11)",
+           "SM_inv (times never decrease along the state list, every state in the domain, _times is its projection): each inductive step is a discharged obligation of unit TimingEngine._retime_events (fold invariant, lemma:step-keeps-domain, lemma:step-time-monotone, post:lookup-tables-are-projections); only the induction over the list itself and heapq.merge's order (T-STD) are argued outside the solver",
            "pyvc VC generator; z3/cvc5"]
 ASSUMPTIONS = ["numerical accuracy (1e-9 s, float resolution below a tick) is not decided: floats are treated as reals"]
 EXPLANATION = ("Proved (SMT, all inputs): TimingState.beats_until is the statement's formula (no beat elapses during a pause; elapsed seconds x BPM / 60 "
                "rounded half-to-even to the tick grid); TimingEngine.beat_at searches a sequence that is ordered in the key it searches (the state times, "
                "which never decrease along the state list - an obligation that fails for a (time, tag) search because equal times carry tags in event order), "
-               "takes the first state at that time for the WARP tag and the last one otherwise, and adds beats_until of that state. Bounded (never counted as "
+               "takes the first state at that time for the WARP tag and the last one otherwise, and adds beats_until of that state; _retime_events builds the state list as the fold of the state-machine step over the merged events and the three look-up tables as its projections. Bounded (never counted as "
                "proved): round trip on tick-aligned beats outside warps, paused beat inside every pause, monotonicity in time, WARP tag not after the default, "
                "independence from redundant earlier BPM changes - the real engine against the exact-rational statement on every small configuration.")
-UNITS = [BeatsUntil(), Lookup("beat_at")]
+UNITS = [BeatsUntil(), Lookup("beat_at"), RetimeEvents()]
 BOUNDED = [EngineVsStatement("beat_at", k) for k in range(EngineVsStatement.PARTS)]
 witness_search = engine_witness(["beat_at"])
